@@ -160,7 +160,7 @@ _PROCESS_DEPENDENT = [
 ]
 
 
-SPECIAL_BLOCKS = ("doc", "spell", "deep", "settle", "loader", "overused", "boolexpr", "decofirst", "twostep", "renames")
+SPECIAL_BLOCKS = ("doc", "spell", "deep", "settle", "loader", "overused", "boolexpr", "decofirst", "twostep", "renames", "dupfuncs")
 
 
 def gen_module(rng: random.Random, process_dependent: bool = False, special: bool = False, force: Optional[str] = None) -> str:
@@ -200,6 +200,23 @@ def gen_module(rng: random.Random, process_dependent: bool = False, special: boo
             with warnings.catch_warnings():
                 warnings.simplefilter("ignore")
                 ast.parse(text)
+            return text
+        except (SyntaxError, ValueError):
+            pass
+    if force == "dupfuncs" or (force is None and special and rng.random() < 0.06):
+        # duplicate functions whose bodies call other duplicates: removing one pair renames uses (to a shorter
+        # or longer name) on lines that lie in front of / inside the other pair
+        short, long_ = rng.choice([("f", "helper_two"), ("compute_the_total_sum", "g"), ("k2", "second_helper_function")])
+        first, second = rng.choice([("first", "second"), ("alpha_function", "b"), ("a", "beta_function")])
+        body = rng.choice(["    return 1\n", "    x = 1\n    return x + 1\n"])
+        call = rng.choice(["    return (other(), other(), {d}())\n", "    print({d}(), a); return {d}()\n", "    return [{d}() for _ in range(a)] + [other()]\n"])
+        text = (
+            f"def {short}():\n{body}\n\ndef other():\n    return 2\n\n\ndef {long_}():\n{body}\n\n"
+            f"def {first}(a):\n    print(a)\n{call.format(d=long_)}\n\ndef {second}(a):\n    print(a)\n{call.format(d=long_)}\n\n"
+            f"print({first}(1), {second}(2), {short}(), {long_}())\n"
+        )
+        try:
+            ast.parse(text)
             return text
         except (SyntaxError, ValueError):
             pass
